@@ -175,6 +175,7 @@ package xmpp
 // get/set requests always go to the handler
 //@   callsite mellium.im/xmlstream.Inner#1
 //@     assert[C07,C06] typ == "result" || typ == "error"
+//@     preserves start.Attr, start.Name, s.in.XMLNS
 // C06: a reply is handed to a waiting caller only if the table holds its id
 // and the stanza name is the registered one (or its empty-namespace form);
 // the handler is not invoked for it
@@ -195,7 +196,12 @@ package xmpp
 // C06: a reply whose requester has given up (its context ended before the
 // hand-off) is a response nobody waits for and goes to the handler
 //@   ghost chosen int = -2
+//@   callsite (context.Context).Done#1
+//@     preserves start.Attr, start.Name, s.in.XMLNS
 //@   callsite select#1
+// (while the serve loop waits for the hand-off nobody else touches the element
+// it has just read)
+//@     preserves start.Attr, start.Name, s.in.XMLNS
 //@     after: chosen = ret0
 //@   ensures[C06] chosen == 1 && err == nil ==> handlerCalls == 1
 // ... and one that was handed to its requester never reaches the handler as well
